@@ -482,7 +482,8 @@ class Check:
             self.issues.append(issue)
 
     def save_replay(self, name, content):
-        d = os.path.join(VERIF, "replay", self.prop)
+        d = os.path.join(os.environ.get("VERIF_REPLAY_DIR") or
+                         os.path.join(VERIF, "replay"), self.prop)
         os.makedirs(d, exist_ok=True)
         p = os.path.join(d, name)
         with open(p, "w") as fp:
@@ -530,7 +531,7 @@ class Check:
               "assumptions": self.assumptions, "wall_s": round(wall, 2),
               "violations": len(viol),
               "known_findings_reproduced": [f["signature"] for f in seen_known.values()]}
-        if self.replay is None:
+        if self.replay is None and not os.environ.get("VERIF_NO_EVIDENCE"):
             os.makedirs(os.path.join(VERIF, "evidence"), exist_ok=True)
             with open(os.path.join(VERIF, "evidence", self.prop + ".json"), "w") as fp:
                 json.dump(ev, fp, indent=1)
